@@ -128,6 +128,8 @@ class SimRandom:
         self.last_choice = None
         self.last_unit = None
         self.probe = None  # when set: callable(vector)->index, nothing is logged/drawn
+        self.script = None  # when set: list of values served to rand/randint (probes; no tape)
+        self.last_ints = []
         self.seeds = []
 
     # -- categorical ------------------------------------------------------
@@ -175,6 +177,8 @@ class SimRandom:
     def rand(self, *shape):
         if shape:
             raise HarnessError("np.random.rand with shape not modelled")
+        if self.script is not None:
+            return self.script.pop(0)
         u = self.tape.unit()
         self.last_unit = u
         return u
@@ -182,6 +186,8 @@ class SimRandom:
     def random(self, size=None):
         if size is not None:
             raise HarnessError("np.random.random with size not modelled")
+        if self.script is not None:
+            return self.script.pop(0)
         u = self.tape.unit()
         self.last_unit = u
         return u
@@ -191,7 +197,11 @@ class SimRandom:
             raise HarnessError("np.random.randint with size not modelled")
         if high is None:
             low, high = 0, low
-        return self.tape.int(int(low), int(high) - 1)
+        if self.script is not None:
+            return self.script.pop(0)
+        v = self.tape.int(int(low), int(high) - 1)
+        self.last_ints.append(v)
+        return v
 
     def choice(self, a, size=None, replace=True, p=None):
         if size is not None or p is not None:
